@@ -1,6 +1,8 @@
 package props
 
 import (
+	"go/constant"
+	"go/token"
 	"strings"
 
 	"golang.org/x/tools/go/ssa"
@@ -99,4 +101,322 @@ func itoa(i int) string {
 		i /= 10
 	}
 	return s
+}
+
+// c10Sprintf: for a value that is the result of fmt.Sprintf, its constant
+// format and the operands of the variadic part (boxing stripped), in order.
+func c10Sprintf(v ssa.Value) (format string, ops []ssa.Value, ok bool) {
+	cl, isCall := v.(*ssa.Call)
+	if !isCall || eng.CalleeName(&cl.Call) != "fmt.Sprintf" || len(cl.Call.Args) != 2 {
+		return "", nil, false
+	}
+	fc, isConst := cl.Call.Args[0].(*ssa.Const)
+	if !isConst || fc.Value == nil || fc.Value.Kind() != constant.String {
+		return "", nil, false
+	}
+	sl, isSlice := cl.Call.Args[1].(*ssa.Slice)
+	if !isSlice {
+		return "", nil, false
+	}
+	arr, isAlloc := sl.X.(*ssa.Alloc)
+	if !isAlloc || arr.Referrers() == nil {
+		return "", nil, false
+	}
+	byIdx := map[int64]ssa.Value{}
+	for _, r := range *arr.Referrers() {
+		ia, isIA := r.(*ssa.IndexAddr)
+		if !isIA || ia.Referrers() == nil {
+			continue
+		}
+		ic, isC := ia.Index.(*ssa.Const)
+		if !isC {
+			return "", nil, false
+		}
+		for _, rr := range *ia.Referrers() {
+			if st, isSt := rr.(*ssa.Store); isSt && st.Addr == ia {
+				val := st.Val
+				if mi, isMI := val.(*ssa.MakeInterface); isMI {
+					val = mi.X
+				}
+				if _, dup := byIdx[ic.Int64()]; dup {
+					return "", nil, false
+				}
+				byIdx[ic.Int64()] = val
+			}
+		}
+	}
+	for i := int64(0); i < int64(len(byIdx)); i++ {
+		o, have := byIdx[i]
+		if !have {
+			return "", nil, false
+		}
+		ops = append(ops, o)
+	}
+	return constant.StringVal(fc.Value), ops, true
+}
+
+// c10StripConv removes value-preserving conversions.
+func c10StripConv(v ssa.Value) ssa.Value {
+	for {
+		switch x := v.(type) {
+		case *ssa.Convert:
+			v = x.X
+		case *ssa.ChangeType:
+			v = x.X
+		default:
+			return v
+		}
+	}
+}
+
+// c10UpgradePath (C10.5): the three functions of the standby upgrade path
+// build their storage key through one format over the same prefix operand;
+// the term operand is the bare active term in the reader (every read, also the
+// re-read after the lock upgrade) and `term - 1` in the writer and the
+// destroyer; the writer encrypts under the term it files the key under and
+// stores the entry under the key it encrypted for.
+func c10UpgradePath(c *eng.Ctx, cu, ck *ssa.Function) {
+	type keyUse struct {
+		fn     *ssa.Function
+		at     ssa.Instruction
+		what   string
+		format string
+		ops    []ssa.Value
+	}
+	var uses []keyUse
+	collect := func(f *ssa.Function, what, calleePat string, argIdx func(a []ssa.Value) ssa.Value, floor int) []keyUse {
+		var out []keyUse
+		for _, g := range eng.Calls(f, calleePat) {
+			k := argIdx(g.Common().Args)
+			format, ops, ok := c10Sprintf(k)
+			if !ok || len(ops) != 2 {
+				c.Clause("R7", "C10.5")
+				c.Undecided(f, "upgrade key shape{"+what+"}", g.Pos(), "the storage key is not a two-operand fmt.Sprintf: "+eng.ExprDeep(k))
+				continue
+			}
+			out = append(out, keyUse{f, g, what, format, ops})
+		}
+		c.Clause("R7", "C10.5")
+		c.Floor(f, what, len(out), floor)
+		return out
+	}
+	// reader: every Get of CheckUpgrade
+	reads := collect(ck, "upgrade key read by CheckUpgrade", `lockSwitchedGet$|barrier\.\(\*AESGCMBarrier\)\.Get$`, func(a []ssa.Value) ssa.Value {
+		for _, x := range a {
+			if _, _, ok := c10Sprintf(x); ok {
+				return x
+			}
+		}
+		return a[len(a)-2]
+	}, 1)
+	writes := collect(cu, "upgrade key encrypted for by CreateUpgrade", `encryptTracked$`, func(a []ssa.Value) ssa.Value { return a[1] }, 1)
+	var destroys []keyUse
+	du := c.Fn("barrier.(*AESGCMBarrier).DestroyUpgrade")
+	if du != nil {
+		destroys = collect(du, "upgrade key deleted by DestroyUpgrade", `barrier\.\(\*AESGCMBarrier\)\.Delete$|<physical\.Backend>\.Delete$`, func(a []ssa.Value) ssa.Value { return a[len(a)-1] }, 1)
+	}
+	uses = append(append(append(uses, reads...), writes...), destroys...)
+	if len(writes) == 0 {
+		return
+	}
+	ref := writes[0]
+	pfx, _ := c.P.ConstValue("barrier.KeyringUpgradePrefix")
+	c.Clause("R7", "C10.5")
+	for i, u := range uses {
+		site := "upgrade key format and prefix{" + u.what + " " + itoa(i+1) + "}"
+		got := u.format + " over " + eng.ExprDeep(u.ops[0])
+		want := ref.format + " over " + eng.ExprDeep(ref.ops[0])
+		switch {
+		case got != want:
+			c.Violation(u.fn, site, u.at.Pos(), "key built as "+got+", the writer builds "+want, nil)
+		case pfx == "" || !strings.Contains(got, `"`+pfx+`"`):
+			c.Violation(u.fn, site, u.at.Pos(), "key built as "+got+" does not carry KeyringUpgradePrefix", nil)
+		default:
+			c.OK(u.fn, site, u.at.Pos(), got)
+		}
+	}
+	c.Clause("R5", "C10.5")
+	for i, u := range reads {
+		site := "term operand of the upgrade key read = active term{read " + itoa(i+1) + "}"
+		t := c10StripConv(u.ops[1])
+		cl, ok := t.(*ssa.Call)
+		if ok && eng.CalleeName(&cl.Call) == "barrier.(*Keyring).ActiveTerm" && len(cl.Call.Args) == 1 && eng.Expr(cl.Call.Args[0]) == "b.keyring" {
+			c.OK(u.fn, site, u.at.Pos(), eng.ExprDeep(t))
+		} else {
+			c.Violation(u.fn, site, u.at.Pos(), "CheckUpgrade reads upgrade/<"+eng.ExprDeep(t)+">; the path to the next term is filed under the bare active term of the live keyring", nil)
+		}
+	}
+	prevTerm := func(f *ssa.Function, v ssa.Value) bool {
+		bo, ok := c10StripConv(v).(*ssa.BinOp)
+		if !ok || bo.Op != token.SUB {
+			return false
+		}
+		p, isP := bo.X.(*ssa.Parameter)
+		one, isC := bo.Y.(*ssa.Const)
+		return isP && p.Name() == "term" && isC && one.Value != nil && one.Value.ExactString() == "1"
+	}
+	for _, u := range append(append([]keyUse{}, writes...), destroys...) {
+		site := "term operand of the upgrade key = term - 1{" + u.what + "}"
+		if prevTerm(u.fn, u.ops[1]) {
+			c.OK(u.fn, site, u.at.Pos(), eng.ExprDeep(u.ops[1]))
+		} else {
+			c.Violation(u.fn, site, u.at.Pos(), "term operand is "+eng.ExprDeep(u.ops[1])+", expected the parameter term minus one", nil)
+		}
+	}
+	for _, u := range writes {
+		a := u.at.(ssa.CallInstruction).Common().Args
+		site := "upgrade key encrypted under the term it is filed under"
+		if eng.ExprDeep(c10StripConv(a[2])) == eng.ExprDeep(c10StripConv(u.ops[1])) {
+			c.OK(u.fn, site, u.at.Pos(), eng.ExprDeep(a[2]))
+		} else {
+			c.Violation(u.fn, site, u.at.Pos(), "encrypted under term "+eng.ExprDeep(a[2])+" but filed under "+eng.ExprDeep(u.ops[1]), nil)
+		}
+		for _, ae := range eng.Calls(u.fn, `barrier\.\(\*AESGCMBarrier\)\.aeadForTerm$`) {
+			site := "AEAD of the term the upgrade key is filed under"
+			if x := ae.Common().Args[1]; eng.ExprDeep(c10StripConv(x)) == eng.ExprDeep(c10StripConv(u.ops[1])) {
+				c.OK(u.fn, site, ae.Pos(), eng.ExprDeep(x))
+			} else {
+				c.Violation(u.fn, site, ae.Pos(), "AEAD of term "+eng.ExprDeep(x)+" but filed under "+eng.ExprDeep(u.ops[1]), nil)
+			}
+		}
+		// the entry stored carries the key that was encrypted for (the AAD)
+		for _, p := range eng.Calls(u.fn, `<physical\.Backend>\.Put$`) {
+			pa := p.Common().Args
+			for _, kv := range eng.StructLitField(pa[len(pa)-1], "Key") {
+				site := "upgrade entry stored under the key it was encrypted for"
+				if kv == a[1] {
+					c.OK(u.fn, site, p.Pos(), eng.ExprDeep(kv))
+				} else {
+					c.Violation(u.fn, site, p.Pos(), "stored under "+eng.ExprDeep(kv)+", encrypted for "+eng.ExprDeep(a[1]), nil)
+				}
+			}
+		}
+	}
+}
+
+// c10CoreUnseal (C10.3, Core level): every key handed to SecurityBarrier.Unseal
+// in package vault comes out of a tabled producer — unsealKeyToRootKey (shares
+// or recovery key turned into the root key), the seal's stored keys, the key a
+// barrier was just initialised with, the parent barrier's decryption of a
+// namespace root key — and the call lies behind that producer's success edge;
+// functions that merely forward a key parameter are followed to their callers.
+func c10CoreUnseal(c *eng.Ctx) {
+	type src struct {
+		origin   string // allowed origin of the key argument
+		producer string // callee whose success edge must be crossed ("" = forwards a parameter: callers are checked)
+		why      string
+	}
+	const u2r = `vault\.\(\*SealManager\)\.unsealKeyToRootKey`
+	fromShares := src{`^call:` + u2r + `#0$`, u2r + `$`, "root key derived from the combined shares / recovery key by unsealKeyToRootKey"}
+	stored := src{`^op:<vault\.Seal>\.GetStoredKeys\(\)#0\[0\]$`, `<vault\.Seal>\.GetStoredKeys$`, "auto-unseal: the root key the seal stores"}
+	fresh := src{`^call:<barrier\.SecurityBarrier>\.GenerateKey#0$`, `<barrier\.SecurityBarrier>\.Initialize$`, "bootstrap: the key the barrier was just initialised with"}
+	fwd := src{`^param:rootKey$`, "", "forwards its key parameter; callers tabled"}
+	tables := []struct {
+		what    string
+		matcher eng.CalleeMatcher
+		floor   int
+		sites   map[string]src
+	}{
+		{"SecurityBarrier.Unseal", nil, 5, map[string]src{
+			"vault.(*Core).unsealInternal":                fwd,
+			"vault.(*SealManager).UnsealWithRootKey":      fwd,
+			"vault.(*SealManager).UnsealNamespace":        fromShares,
+			"vault.(*generateRecoveryToken).authenticate": fromShares,
+			"vault.(*Core).initializeInternal":            fresh,
+			"vault.(*SealManager).InitializeBarrier":      fresh,
+			"vault.(*Core).raftSnapshotRestoreCallback$1": stored,
+		}},
+		{"Core.unsealInternal", mustStatic(c, "vault.(*Core).unsealInternal"), 2, map[string]src{
+			"vault.(*Core).unsealFragment":       fromShares,
+			"vault.(*Core).unsealWithRaft$1":     fromShares,
+			"vault.(*Core).UnsealWithStoredKeys": stored,
+		}},
+		{"SealManager.UnsealWithRootKey", mustStatic(c, "vault.(*SealManager).UnsealWithRootKey"), 1, map[string]src{
+			"vault.(*Core).SetNamespaceKeys": {`^call:<barrier\.SecurityBarrier>\.Decrypt#0$`, `<barrier\.SecurityBarrier>\.Decrypt$`, "namespace root key decrypted by the (unsealed) parent barrier"},
+		}},
+	}
+	if m, ok := c.P.IfaceCallee("barrier.SecurityBarrier", "Unseal"); ok {
+		tables[0].matcher = m
+	} else {
+		c.Unresolved("barrier.SecurityBarrier")
+		return
+	}
+	inVault := func(fn *ssa.Function) bool { return eng.InPkg(fn, "vault") }
+	for _, t := range tables {
+		sites := c.P.FindCalls(t.matcher, inVault)
+		c.Clause("R1", "C10.3")
+		c.Floor(nil, "call sites of "+t.what+" in package vault", len(sites), t.floor)
+		for _, s := range sites {
+			fn := eng.FuncName(s.Fn)
+			a := s.Call.Common().Args
+			key := a[len(a)-1]
+			sr, ok := t.sites[fn]
+			c.Clause("R1", "C10.3")
+			if !ok {
+				c.Violation(s.Fn, "callers{"+t.what+"}", s.Call.Pos(), "a key is handed to "+t.what+" outside the reviewed table of key sources: "+eng.ExprDeep(key), nil)
+				continue
+			}
+			c.OK(s.Fn, "callers{"+t.what+"}", s.Call.Pos(), sr.why)
+			c.Clause("R5", "C10.3")
+			// a nil key is refused by the barrier; it appears as the zero value of a loop-carried variable
+			c.Prov(s.Fn, "key handed to "+t.what, s.Call, key, sr.origin, `^const:nil$`)
+			if sr.producer == "" {
+				continue
+			}
+			c.Clause("R2", "C10.3")
+			prod := eng.Calls(s.Fn, sr.producer)
+			g := eng.GCallOK(s.Fn, sr.producer)
+			sink := []ssa.Instruction{s.Call}
+			c.Cut(s.Fn, t.what, sink, eng.Or(eng.Guard{Desc: g.Desc, Edges: g.Edges}, eng.Guard{Desc: "key tested non-empty", Edges: c10NonEmptyEdges(s.Fn, key)}), nil)
+			site := "on{" + sr.producer + " failed} no " + t.what
+			var fail []eng.Edge
+			for _, p := range prod {
+				fail = append(fail, eng.CallFailEdges(p)...)
+			}
+			switch {
+			case len(fail) == 0:
+				c.Undecided(s.Fn, site, s.Call.Pos(), "no branch tests the error of the key producer")
+			default:
+				// (running the producer again starts over: a loop may retry)
+				if h := eng.Reach(eng.Query{Fn: s.Fn, StartEdges: fail, Barriers: instrsOf(prod), Target: eng.IsTarget(sink)}); h != nil {
+					c.Violation(s.Fn, site, s.Call.Pos(), "the barrier can be unsealed after the key producer failed", h.Witness)
+				} else {
+					c.OK(s.Fn, site, s.Call.Pos(), "the failure edge of the key producer never reaches "+t.what)
+				}
+			}
+		}
+	}
+}
+
+// c10NonEmptyEdges: the edges on which len(v) > 0 was established.
+func c10NonEmptyEdges(f *ssa.Function, v ssa.Value) []eng.Edge {
+	var out []eng.Edge
+	for _, b := range f.Blocks {
+		ifi := eng.IfOf(b)
+		if ifi == nil {
+			continue
+		}
+		nc := eng.Normalize(ifi.Cond)
+		bo, ok := nc.Val.(*ssa.BinOp)
+		if !ok || !strings.HasPrefix(nc.Base, "0 < len(") {
+			continue
+		}
+		isLenOfV := func(x ssa.Value) bool {
+			ln, isCall := x.(*ssa.Call)
+			if !isCall || len(ln.Call.Args) != 1 || ln.Call.Args[0] != v {
+				return false
+			}
+			bi, isB := ln.Call.Value.(*ssa.Builtin)
+			return isB && bi.Name() == "len"
+		}
+		if !isLenOfV(bo.X) && !isLenOfV(bo.Y) {
+			continue
+		}
+		succ := 1
+		if nc.Pol {
+			succ = 0
+		}
+		out = append(out, eng.Edge{From: b, Succ: succ})
+	}
+	return out
 }
